@@ -66,6 +66,37 @@ CLAIMED = {
         note=("Trusted: Coq kernel (closed under the global context); effects.py extraction (fail-closed; loops flattened, solver loops assumed to run "
               "at least once); determinism of the code (read-only-current-caches => equals fresh mixture), checked bit-for-bit; Cache.v interpreter."),
         ref="§3-C03"),
+    "C02": dict(
+        technique="Coq theorems over R about every iterate of the relaxed Newton iteration (hand model tied to recorded solver iterations) + tested residuals of returned compositions",
+        text=("proof, partial: proved for the step model — any solution of the Newton system satisfies the element and charge constraints; the relaxed update "
+              "contracts every constraint residual by exactly (1-r) (so a satisfied constraint stays satisfied, a full step makes it exact); every iterate is "
+              "strictly positive for ARBITRARY Newton proposals and 0<r<=1; densities sum to P/kT, are positive and keep the constraint ratios. NOT proved: "
+              "that the returned iterate has seen a full step / that round-off keeps residuals at the double-precision floor, and finiteness — these are tested "
+              "on generated mixtures (shipped and synthetic chemistries, random order) at 1e-11."),
+        note=("Trusted: Coq kernel; Reals axioms as printed; hand-written Gibbs.v/RefEnergy.v tied to calculate_composition by recorded iterations through the "
+              "guarded hook (mu/E0/dE, linear system vs recorded matrix, relaxation factor, stopping quantity, next iterate, densities); numpy.linalg.solve "
+              "not modelled (theorems quantify over proposals); extraction + double instance."),
+        ref="§3-C02"),
+    "C01": dict(
+        technique="Coq theorems over R characterising fixed points of the Newton iteration as mass-action states + tested mass-action residuals with mu from the extracted kernels",
+        text=("proof, partial: proved — the coded chemical potential depends on densities only; the species rows of the Newton system are the identity "
+              "(mu_i+(A lam)_i)/kT = sum(N')/sum(N) - N'_i/N_i; a fixed point of the iteration is exactly a state with mu = -(A lam); such a state balances every "
+              "reaction (A^T nu = 0 => nu.mu = 0) and hence satisfies the Saha / Guldberg-Waage ratios. NOT proved: that the floating-point iteration reaches "
+              "the fixed point for every input (the stopping rule looks at the most abundant species only); the residual of every un-warned returned composition "
+              "is tested at the property's floors (1e-8 kT above x=1e-5, 1e-4 down to 1e-7) with mu evaluated by the extracted model kernels."),
+        note=("Trusted: as C02; the reference-energy / Stewart-Pyatt model RefEnergy.v is hand-written and tied by recorded E0/dE/mu; least-squares projection "
+              "in numpy for the tested part."),
+        ref="§3-C01"),
+    "C06": dict(
+        technique="Coq theorems about the control-flow model of the governor/retry loops for an arbitrary numerical step + replay of recorded stopping quantities + tested window/start/rtol clauses",
+        text=("proof, partial: proved for arbitrary behaviour of the numerical step — the warning is issued iff all governor attempts failed; no warning implies "
+              "the last stopping quantity was a finite number <= rtol reached within max_iter; a non-finite stopping quantity never ends an attempt as converged; "
+              "every attempt performs at most max_iter+1 iterations. Positivity/constraints of un-warned returns: C02. NOT proved (tested): convergence of the "
+              "shipped mixtures inside the documented window under default controls (grid), start-estimate independence and rtol tightening (species with "
+              "x>1e-5 agree to 1e-5), no silent failure over T 200..6e4 K, P 1e2..1e8 Pa."),
+        note=("Trusted: Coq kernel (closed under the global context); hand-written Retry.v tied by replaying recorded stopping quantities (hook) incl. NaN cases "
+              "and small max_iter; extraction."),
+        ref="§3-C06"),
 }
 
 NOT_YET = {}
@@ -92,7 +123,7 @@ def main():
         "version": 1,
         "setup_cmd": "make -C /verif setup",
         "hooks": {"guard": "MINPLASCALC_VERIF", "enable": "export MINPLASCALC_VERIF=1 (set by ./check); no rebuild needed, pure Python",
-                  "baseline_off_cmd": BASE, "source_commits": ["a695551"], "add_only": True},
+                  "baseline_off_cmd": BASE, "source_commits": ["a695551", "8a5b3ff"], "add_only": True},
         "engines": [{"name": "coq-proof", "path": "/verif/coq", "serves_properties": sorted(CLAIMED),
                      "kind_free_text": "Coq 8.16 development: kernels regenerated from /repo by translator/py2coq.py, specs, proofs, "
                                        "thm/Cxx.v property theorems; extraction to OCaml for the differential correspondence check (harness/)"}],
